@@ -129,6 +129,41 @@ SPECS += [
      "assume": RP_ASSUME + LG_ASSUME,
      "args1": ["x", "x_prime", "log_j", "False"],
      "args2": ["x", "x_prime", "log_j"],
-     "prove": ROUND[:2] + [
+     # stepping stones (each is assumed once proved): sigmoid(logit(u)) = u
+     # per parameter, then the affine part, then the statement itself
+     "prove": [
+         "forall(i, 0, len(x), 1 / (1 + E(-x_prime['a_prime'][i])) == "
+         + _u("a").replace("x['a'][i]", "old(x['a'])[i]") + ")",
+         "forall(i, 0, len(x), 1 / (1 + E(-x_prime['b_prime'][i])) == "
+         + _u("b").replace("x['b'][i]", "old(x['b'])[i]") + ")",
+     ] + ROUND[:2] + [
          "forall(i, 0, len(x), log_j[i] == old(log_j)[i])", ROUND[2]]},
+]
+
+
+# ---- the prime prior has the same support as the prior -------------------
+# a value v lies in the prior interval iff its image under the map that
+# _rescale_to_bounds applies (after the offset) lies between the bounds
+# determine_rescaled_bounds returns: the uniform prime prior's box is
+# exactly the image of the prior box (and the map is affine, so the density
+# is the prior divided by a constant Jacobian)
+SPECS += [
+    {"name": "prime-prior support = image of the prior interval",
+     "first": (RS, "determine_rescaled_bounds"),
+     "second": (RR, "RescaleToBounds._rescale_to_bounds"),
+     "self_shape": "RescaleToBounds",
+     "params": {"v": "Real", "pmin": "Real", "pmax": "Real",
+                "off": "Real", "rb": "PyList(Real,2)"},
+     "assume": ["self.bounds['a'][0] < self.bounds['a'][1]",
+                "rb[0] < rb[1]", "pmin <= pmax",
+                "self._rescale_factor['a'] == rb[1] - rb[0]",
+                "self._rescale_shift['a'] == rb[0]"],
+     "args1": ["pmin", "pmax", "self.bounds['a'][0]", "self.bounds['a'][1]",
+               "None", "False", "off", "rb"],
+     "args2": ["v - off", "'a'"],
+     "prove": ["(pmin <= v and v <= pmax) == "
+               "(r1[0] <= r2[0] and r2[0] <= r1[1])",
+               # the end points map to the end points
+               "implies(v == pmin, r2[0] == r1[0])",
+               "implies(v == pmax, r2[0] == r1[1])"]},
 ]
